@@ -404,17 +404,51 @@ class WalletWorld:
         fee = ch.weighted('fee', [(None, 5), (1000, 2), (5000, 1), ('low', 1), ('high', 1), (0, 1)])
         broadcast = ch.coin('broadcast', 0.75)
         rbf = ch.coin('rbf', 0.2)
-        nco = ch.weighted('nco', [(1, 6), (0, 2), (2, 1), (3, 1)])
+        nco = ch.weighted('nco', [(1, 6), (0, 2), (2, 2), (3, 1)])
+        extra = {}
+        outs_arg = list(outs)
+        self.request_extra = {}
+        if self.focus == 'C07':
+            # the same request in the other forms the API accepts, and the optional selection constraints
+            form = ch.weighted('amt_form', [('int', 5), ('value', 2), ('str', 2)])
+            aform = ch.weighted('addr_form', [('str', 6), ('address_obj', 2)])
+            from decimal import Decimal
+            from bitcoinlib.values import Value
+            from bitcoinlib.keys import Address
+            code = self.netobj.currency_code
+
+            def amt_f(v):
+                if form == 'value':
+                    return Value.from_satoshi(v, network=self.network)
+                if form == 'str':
+                    return '%s %s' % (Decimal(v) / Decimal(10 ** 8), code)
+                return v
+
+            def addr_f(a):
+                return Address.parse(a, network=self.network) if aform == 'address_obj' else a
+            outs_arg = [(addr_f(a), amt_f(v)) for a, v in outs]
+            mu = ch.weighted('max_utxos', [(None, 6), (1, 1), (2, 1), (5, 1)])
+            if mu is not None:
+                extra['max_utxos'] = mu
+            if us and ch.coin('input_key_id', 0.15):
+                extra['input_key_id'] = us[ch.index('ikid', len(us))]['key_id']
+            if ch.coin('fixed_order', 0.3):
+                extra['random_output_order'] = False
+            lt = ch.weighted('locktime', [(0, 8), ('tip', 1)])
+            if lt == 'tip':
+                extra['locktime'] = self.chain.tip
+            self.request_extra = dict(extra, amt_form=form, addr_form=aform)
         self.w.op('send', wallet=wi.name, outs=[(a[:14], v) for a, v in outs], fee=fee, broadcast=broadcast,
-                  min_confirms=min_conf, rbf=rbf, nco=nco, total=total)
+                  min_confirms=min_conf, rbf=rbf, nco=nco, total=total, extra={k: str(v) for k, v in self.request_extra.items()})
         seq0 = self.w.log.seq
         n_acc0 = len(self.chain.accepted_broadcasts)
-        if n_out == 1 and ch.coin('send_to', 0.5):
-            fn = lambda: h.send_to(outs[0][0], outs[0][1], fee=fee, min_confirms=min_conf, broadcast=broadcast,
-                                   replace_by_fee=rbf, number_of_change_outputs=nco)
+        if n_out == 1 and ch.coin('send_to', 0.5) and 'max_utxos' not in extra:
+            fn = lambda: h.send_to(outs_arg[0][0], outs_arg[0][1], fee=fee, min_confirms=min_conf, broadcast=broadcast,
+                                   replace_by_fee=rbf, number_of_change_outputs=nco,
+                                   **{k: v for k, v in extra.items() if k in ('input_key_id', 'random_output_order', 'locktime')})
         else:
-            fn = lambda: h.send(outs, fee=fee, min_confirms=min_conf, broadcast=broadcast, replace_by_fee=rbf,
-                                number_of_change_outputs=nco)
+            fn = lambda: h.send(outs_arg, fee=fee, min_confirms=min_conf, broadcast=broadcast, replace_by_fee=rbf,
+                                number_of_change_outputs=nco, **extra)
         ok, t = self.call(wi, 'send', fn)
         self.after_send(wi, h, ok, t, broadcast, outs, fee, min_conf, seq0, n_acc0, us, request='send', nco=nco)
 
@@ -574,7 +608,7 @@ class WalletWorld:
         if not cands:
             return
         txid = cands[ch.index('bump_i', len(cands))]
-        how = ch.pick('bump_how', ['default', 'fee', 'extra_fee'])
+        how = ch.pick('bump_how', ['default', 'fee', 'extra_fee', 'eat_change'])
         self.w.op('bumpfee', wallet=wi.name, txid=txid[:16], how=how)
         ok, t = self.call(wi, 'transaction', lambda: h.transaction(txid))
         if not ok or t is None:
@@ -586,6 +620,12 @@ class WalletWorld:
             kw['fee'] = (t.fee or 0) + ch.pick('bump_v', [500, 5000])
         elif how == 'extra_fee':
             kw['extra_fee'] = ch.pick('bump_v', [500, 5000])
+        elif how == 'eat_change':
+            # an extra fee that consumes the smallest change output completely
+            chg = sorted(o.value for o in t.outputs if o.change)
+            if not chg:
+                return
+            kw['extra_fee'] = chg[0] + ch.pick('bump_eat', [1, 0, 600])
         t.pushed = True     # the transaction was broadcast by this wallet (reloaded objects do not remember)
         bc = ch.coin('bump_bc', 0.6)
         n_acc0 = len(self.chain.accepted_broadcasts)
